@@ -38,15 +38,22 @@ def fail_key(tr, line, clause):
     return "C17:%s:%s:%s:%s" % (isa, e.get("st", "?"), clause, e.get("k", "?"))
 
 
-def coarse_key(tr, line, clause):
-    """apply stage only: the key of DESIGN.md 3.5 proper (innermost amoco frame).  A semantics function that
-    builds an ill-sized expression for SOME operand values fails inside the size checks of amoco/cas; which
-    i_MNEMONIC functions do so is value dependent, so the finding is also listed once per (isa, exception,
-    cas-level frame).  Tried only when the narrow key is not listed."""
+def coarse_keys(tr, line, clause):
+    """apply stage only.  The semantics tables of most ISAs fail for SOME operand values (ill-sized
+    expressions rejected by amoco/cas, attributes missing on some operand kinds); which i_MNEMONIC functions
+    do so is value dependent and a run samples them.  Such a crash is therefore also listed (a) under the key
+    of DESIGN.md 3.5 proper - innermost amoco frame - and (b) per (isa, exception type, semantics FILE).
+    They are tried, in this order, only when the narrow (function-level) key is not listed; a new exception
+    type, a crash outside the semantics files (e.g. in icore.__call__) or in any other stage is never covered."""
     e = tr["ev"][line - 1]
-    if clause == "Raised" and e["st"] == "apply" and e.get("at0") and e["at0"] != e["at"]:
-        return "C17:%s:apply:%s:%s" % (tr["m"].split("/")[0], e["exc"], e["at0"])
-    return None
+    out = []
+    if clause == "Raised" and e["st"] == "apply":
+        isa = tr["m"].split("/")[0]
+        if e.get("at0") and e["at0"] != e["at"]:
+            out.append("C17:%s:apply:%s:%s" % (isa, e["exc"], e["at0"]))
+        if e["at"].startswith("amoco/arch/") and not e["at"].startswith("amoco/arch/core.py"):
+            out.append("C17:%s:apply:%s:%s:*" % (isa, e["exc"], e["at"].rsplit(":", 1)[0]))
+    return out
 
 
 def describe(tr, line, clause):
@@ -60,7 +67,46 @@ def describe(tr, line, clause):
         dict((k, v) for k, v in e.items() if k in ("k", "opk", "mnlen", "mnstr", "type", "len", "fp0", "fp1", "syn")))
 
 
+def report(ctx, traces, verdicts, coarse_seen=None):
+    known = set(k.get("key") for k in ctx.known)
+    for tr in traces:
+        for line, clause, _ in verdicts[tr["t"]]:
+            key = fail_key(tr, line, clause)
+            cks = coarse_keys(tr, line, clause)
+            for ck in cks:
+                if coarse_seen is not None:
+                    coarse_seen.setdefault(ck, set()).add(key)
+            if key not in known:
+                for ck in cks:
+                    if ck in known:
+                        key = ck
+                        break
+            ctx.fail(key, describe(tr, line, clause), {"source": "T", "trace": tr, "line": line, "clause": clause})
+
+
+def replay(ctx):
+    """./check C17 --replay <file>: the recorded input is taken through the same stages on the current tree
+    and the new trace is judged by TLC again"""
+    import json
+    case = json.load(open(ctx.replay))["case"]
+    tr = case["trace"]
+    isa, mode = tr["m"].split("/")
+    with mp.Pool(1) as pool:
+        new = pool.apply(c17.replay_one, ((isa, mode, bytes(tr["in"]).hex()),))
+    new["t"] = 1
+    new["maxlen"] = 0
+    verdicts = D.validate(ctx, [new], "c17r")
+    ctx.case(key=("replay", tr["m"], bytes(tr["in"]).hex()))
+    ctx.case(key=("replay-events", len(new["ev"])))
+    ctx.trace()
+    ctx.sample({"replayed": ctx.replay, "events": new["ev"], "verdict": verdicts[1]})
+    ctx.rule = "replay of one recorded input through decode/render/pickle/apply on the current tree"
+    report(ctx, [new], verdicts)
+
+
 def run(ctx):
+    if ctx.replay:
+        return replay(ctx)
     quick = ctx.tier == "quick"
     ctx.rule = ("one case = one input byte string taken through decode / render(every syntax) / pickle / apply "
                 "on one ISA module and mode; inputs: every shipped ispec x fillings of its free bits and tail "
@@ -72,14 +118,15 @@ def run(ctx):
                "rendering/applying, as system/core.py read_instruction does")
     ctx.assume("a call that uses more than %.0f s of CPU time is recorded as raised Timeout" % D.TIMEOUT_S)
     ctx.assume("decode-mode globals (env.internals) and sf flags of architectural registers are restored after "
-               "every apply so that cases are independent")
+               "every apply, and the pending-prefix variable is cleared after a decode that raised, so that cases "
+               "are independent (the leak itself is C11's finding)")
     ctx.assume("the list of importable ISA modules is vendored in harness/dec_common.py (22 modules, 24 modes; "
                "avr.cpu, ppc32.cpu_e200, superh.cpu_sh4 do not import on the pinned tree)")
     # --- M: the trace spec rejects seeded faults --------------------------------------------------------
     D.selftest(ctx, ("c17",))
     # --- T ----------------------------------------------------------------------------------------------
     fillings = QUICK_FILL if quick else THOROUGH_FILL
-    nrandom = 150 if quick else 2000
+    nrandom = 150 if quick else 1000
     import time
     t_gen = time.time()
     with mp.Pool(tlc.NCPU) as pool:
@@ -96,7 +143,6 @@ def run(ctx):
                 jobs.append((isa, mode, lo, min(n, lo + step), fillings, nrandom if first else 0, ctx.seed, True))
                 first = False
                 lo += step
-        # big jobs first
         outs = pool.map(c17.run_chunk, jobs, chunksize=1)
     traces = []
     per_isa = {}
@@ -115,7 +161,6 @@ def run(ctx):
     verdicts = D.validate(ctx, traces, "c17")
     ctx.note("wall_validate_s", round(time.time() - t_val, 1))
     stage_counts = {}
-    known = set(k.get("key") for k in ctx.known)
     coarse_seen = {}
     for tr in traces:
         kinds = tuple("%s:%s" % (e["st"], e["k"]) for e in tr["ev"])
@@ -128,19 +173,12 @@ def run(ctx):
         st = per_isa.setdefault(tr["m"], {"inputs": 0, "instr": 0, "none": 0, "raised": 0})
         st["inputs"] += 1
         st[dec["k"]] += 1
-        for line, clause, _ in verdicts[tr["t"]]:
-            key = fail_key(tr, line, clause)
-            ck = coarse_key(tr, line, clause)
-            if ck is not None:
-                coarse_seen.setdefault(ck, set()).add(key)
-                if key not in known and ck in known:
-                    key = ck
-            ctx.fail(key, describe(tr, line, clause), {"source": "T", "trace": tr, "line": line, "clause": clause})
+    report(ctx, traces, verdicts, coarse_seen)
     ctx.note("per_isa_mode", per_isa)
     ctx.note("syntaxes_rendered", syn)
     ctx.note("stage_outcomes", stage_counts)
     ctx.note("inputs", len(traces))
-    ctx.note("apply_crashes_by_cas_level_frame", dict((k, sorted(v)) for k, v in sorted(coarse_seen.items())))
+    ctx.note("apply_crashes_by_class", dict((k, sorted(v)) for k, v in sorted(coarse_seen.items())))
     good = [t for t in traces if len(t["ev"]) > 4 and not verdicts[t["t"]]]
     for t in (good[:2] + [t for t in traces if verdicts[t["t"]]][:2]):
         ctx.sample({"m": t["m"], "src": t["src"], "in": bytes(t["in"]).hex(), "events": t["ev"],
